@@ -391,6 +391,10 @@ pub fn run_index(id: &str, tier: &str, seed: u64, idx: u64, stats: &mut Stats, k
         // the real backend's side of the property: two sibling sandboxes
         return diffw::twin_index(id, tier, seed, idx, stats, known);
     }
+    if id == "C09" && idx % 16 == 13 {
+        // the real backend alone on trees with indirect links (outside the comparison domain)
+        return diffw::solo_index(id, tier, seed, idx, stats, known);
+    }
     if diffw::leg(id).is_some() && idx % 8 == 5 {
         // "on both backends": the DIFF leg of this property
         stats.bump("diff_leg_runs");
@@ -425,6 +429,7 @@ pub fn replay_value(case: &serde_json::Value) -> Result<(Option<Violation>, Stri
             Ok((f.map(|f| f.violation), String::new()))
         },
         "TWIN" => diffw::replay_twin(case),
+        "SOLO" => diffw::replay_solo(case),
         "CONC" => conc::replay(case),
         "DIFF" => diffw::replay(case),
         "ENV" => envw::replay(case),
